@@ -338,6 +338,42 @@ def write_replay(pid, payload):
     return os.path.join('replays', pid, name)
 
 
+def generic_replay(spec, ctx, path):
+    """re-runs the recorded run (same tier and seed, hence the same generated cases) against the
+    current tree and reports whether the recorded failure is still there: exit 1 with a VIOLATION
+    line if the oracle fails again with the recorded key (or, for a replay without a failing
+    input, if the correspondence still disagrees), exit 0 otherwise"""
+    d = json.load(open(path))
+    print(json.dumps({k: d[k] for k in d if k not in ('broken', 'disagreements')}, indent=1)[:3000])
+    tier, seed, pid = d.get('tier', 'quick'), int(d.get('seed', 0)), spec.PID
+    ctx.tier, ctx.seed, ctx.thorough = tier, seed, tier == 'thorough'
+    ctx.rng = random.Random('%s/%s/%d' % (pid, tier, seed))
+    corr = Corr()
+    if os.path.exists(Driver.exe):
+        corr = spec.correspondence(ctx)
+    if d.get('no_failing_input_found') or d.get('kind') != 'oracle':
+        n = len(corr.disagreements)
+        print('correspondence on the current tree: %d disagreement(s) in %d cases' % (n, corr.evaluations))
+        if n:
+            print(json.dumps(jsonable(corr.disagreements[:3]), indent=1)[:3000])
+            print('VIOLATION property=%s replay=%s no-failing-input-found' % (pid, path))
+            return 1
+        print('not reproduced: the model and the implementation agree again (proof obligations are re-checked by ./check %s)' % pid)
+        return 0
+    key = d.get('key')
+    orc = spec.oracle(ctx, 1, [])
+    hit = [f for f in orc.failures if f['key'] == key]
+    if not hit:
+        orc = spec.oracle(ctx, 10, [x.get('input') for x in corr.disagreements])
+        hit = [f for f in orc.failures if f['key'] == key]
+    if hit:
+        print('reproduced: %s' % hit[0]['what'][:1500])
+        print('VIOLATION property=%s replay=%s' % (pid, path))
+        return 1
+    print('not reproduced on the current tree: the recorded input no longer fails (%d oracle cases re-run)' % orc.evaluations)
+    return 0
+
+
 def jsonable(x, depth=0):
     if isinstance(x, (str, int, float, bool)) or x is None:
         return x
